@@ -528,7 +528,49 @@ def r33(orig, rule):
     return '{ let mut __v: Vec<%s> = Vec::new(); for %s in %s..%s { __v.push(%s); } __v }' % (ty, x, a, b, e)
 
 
+def r34(orig, rule):
+    # for &X in &S[A..] {   ->  for __i in A..S.len() { let X = S[__i];
+    #   (iterating the tail slice S[A..] visits S[A], S[A+1], ... in order; side condition A <= S.len() is a proof obligation of the range)
+    s = norm(orig)
+    m = _m(r'for & (%s) in & (%s) \[ (.+?) \.\. \] \{' % (ID, ID), s)
+    x, sl, a = m.groups()
+    return 'for __i in %s..%s.len() { let %s = %s[__i];' % (a, sl, x, sl)
+
+
+def r35(orig, rule):
+    # for K in (LO..HI).rev() {   ->  { let mut K: T = HI; while K > LO { K -= 1;        (closed by R35t; T from the rule argument)
+    #   (the reversed range yields HI-1, HI-2, ..., LO)
+    s = norm(orig)
+    ty = rule.split()[1]
+    m = _m(r'for (%s) in \( (.+?) \.\. (.+?) \) \. rev \( \) \{' % ID, s)
+    k, lo, hi = m.groups()
+    return '{ let mut %s: %s = %s; while %s > %s { %s -= 1;' % (k, ty, hi, k, lo, k)
+
+
+def r35t(orig, rule):
+    _m(r'\}', norm(orig))
+    return '} }'
+
+
+def r36(orig, rule):
+    # for (X, Y) in E {   ->  for __e in E { let (X, Y) = __e;          (the tuple pattern moved into a let)
+    s = norm(orig)
+    m = _m(r'for \( (%s) , (%s) \) in (.+) \{' % (ID, ID), s)
+    x, y, e = m.groups()
+    return 'for __e in %s { let (%s, %s) = __e;' % (e, x, y)
+
+
+def r37(orig, rule):
+    # X >= &Y   ->  *X >= Y        (comparison of two references compares the referents)
+    s = norm(orig)
+    out, n = re.subn(r'(?<![A-Za-z0-9_.] )\b(%s) >= & (%s)\b' % (ID, ID), r'* \1 >= \2', s)
+    if n == 0:
+        raise NoMatch('no X >= &Y')
+    return out
+
+
 GENERATORS = {
+    'R34': r34, 'R35': r35, 'R35t': r35t, 'R36': r36, 'R37': r37,
     'R33': r33,
     'R1b': r1b, 'R1t': r1t, 'R22': r22, 'R23': r23, 'R24': r24, 'R18m': r18m, 'RRET': rret, 'R26': r26, 'R18a': r18a, 'RTY': rty, 'R32': r32, 'R31': r31, 'RVEC': rvec, 'R29': r29, 'R30': r30, 'R30t': r30t, 'R28': r28, 'RPANIC': rpanic,
     'RBW': rbw,
